@@ -2,7 +2,7 @@
 
 Nothing is ever written into /repo.  Object names carry the source directory because
 both src/eav.c and partial/<backend>/eav.c exist."""
-import os, subprocess, hashlib, shutil, glob, json
+import os, subprocess, hashlib, shutil, glob, json, re
 
 VERIF = os.path.dirname(os.path.dirname(os.path.dirname(os.path.abspath(__file__))))
 REPO = os.environ.get("VERIF_REPO", "/repo")
@@ -142,19 +142,36 @@ def rename_writable_sections(objs):
              "--rename-section", ".data.rel=eavdata", "--rename-section", ".data.rel.local=eavdata", o])
 
 
+def rename_init_fini(objs):
+    """C14 models the process lifetime: the library objects' constructor / destructor tables are renamed (eavinit / eavfini)
+    so that the loader does not run them; the simulator runs the constructors at the start of every simulated process and
+    the destructors when a simulated thread calls exit()"""
+    for o in objs:
+        out = subprocess.run(["readelf", "-S", "-W", o], stdout=subprocess.PIPE, stderr=subprocess.DEVNULL).stdout.decode("latin-1")
+        args = []
+        for m in re.finditer(r"\]\s+(\.(?:init_array|fini_array|ctors|dtors)[^\s]*)\s", out):
+            n = m.group(1)
+            if n.startswith(".rela"):
+                continue
+            args += ["--rename-section", "%s=%s" % (n, "eavinit" if n.startswith((".init_array", ".ctors")) else "eavfini")]
+        if args:
+            run(["objcopy"] + args + [o])
+
+
 HIST_WRAPS = ["malloc", "free", "calloc", "realloc", "strndup", "strdup", "abort", "__assert_fail"]
 
 
 FLAG_DEFS = ["-DRFC6531_FOLLOW_RFC5322", "-DRFC6531_FOLLOW_RFC20", "-DLABELS_ALLOW_UNDERSCORE"]
 
 
-def build_hist(backend, extra=False, flags=False):
-    """history simulator for one backend -> path of executable"""
-    name = "hist-%s%s%s" % (backend, "-extra" if extra else "", "-flags" if flags else "")
+def build_hist(backend, extra=False, flags=False, ndebug=False):
+    """history simulator for one backend -> path of executable.  ndebug: the release configuration (-DNDEBUG: assert()
+    compiled out of the library; the Makefile's CFLAGS are the user's to set)"""
+    name = "hist-%s%s%s%s" % (backend, "-extra" if extra else "", "-flags" if flags else "", "-ndebug" if ndebug else "")
     d = os.path.join(BUILD, name)
     if os.path.isdir(d):
         shutil.rmtree(d)
-    defs = (["-DEAV_EXTRA"] if extra else []) + (FLAG_DEFS if flags else [])
+    defs = (["-DEAV_EXTRA"] if extra else []) + (FLAG_DEFS if flags else []) + (["-DNDEBUG"] if ndebug else [])
     objs = compile_lib(d, backend, ASAN, defs)
     ext = undefined_externals(objs)
     rename_writable_sections(objs)
@@ -224,16 +241,18 @@ def build_locale():
 CLI_WRAPS = ["fopen", "abort", "__assert_fail", "exit", "fileno", "fstat", "setlocale", "strerror"]
 
 
-def build_cli():
-    """CLI simulator: bin/main.c (as eav_cli_main) + bin/utf8_decode.c + library objects WITHOUT
+def build_cli(ndebug=False):
+    """ndebug: the tool and the library it links compiled with -DNDEBUG (release configuration); the reference copy is not.
+    CLI simulator: bin/main.c (as eav_cli_main) + bin/utf8_decode.c + library objects WITHOUT
     src/utf8_decode.c - the shipped link resolves the library's utf8_decode_* calls to the
     executable's own file-scope-static decoder, so this reproduces what `eav` really runs."""
-    d = os.path.join(BUILD, "cli")
+    d = os.path.join(BUILD, "cli-ndebug" if ndebug else "cli")
     if os.path.isdir(d):
         shutil.rmtree(d)
-    objs = compile_lib(d, "idn2", ASAN, [], with_lib_decoder=False)
+    nd = ["-DNDEBUG"] if ndebug else []
+    objs = compile_lib(d, "idn2", ASAN, nd, with_lib_decoder=False)
     inc = ["-I" + os.path.join(REPO, "include"), "-I" + REPO, "-DHAVE_LIBIDN2"]
-    cpp = ["-D_DEFAULT_SOURCE", "-D_XOPEN_SOURCE=700", "-D_SVID_SOURCE", "-D__EXTENSIONS__"]
+    cpp = ["-D_DEFAULT_SOURCE", "-D_XOPEN_SOURCE=700", "-D_SVID_SOURCE", "-D__EXTENSIONS__"] + nd
     jobs = []
     main_o = os.path.join(d, "bin_main.o")
     jobs.append([CC, "-std=c99", "-Wall", "-Wextra"] + cpp + inc + ASAN + ["-Dmain=eav_cli_main", "-c", os.path.join(REPO, "bin/main.c"), "-o", main_o])
@@ -269,7 +288,7 @@ def build_cli():
 SCHED_WRAPS = ["malloc", "free", "calloc", "realloc", "strdup", "strndup", "strlen", "strchr", "strrchr", "strstr", "strspn", "strcspn",
                "strncasecmp", "strcasecmp", "strcmp", "strncmp", "memcpy", "memmove", "memset", "memcmp", "memchr", "strcpy", "strncpy",
                "sprintf", "snprintf", "vsprintf", "vsnprintf", "strcat", "strncat", "stpcpy", "strtok_r", "strsep",
-               "idn2_to_ascii_8z", "strtok", "strerror", "rand", "srand", "setlocale", "getenv", "setenv", "unsetenv", "putenv", "clearenv", "abort", "__assert_fail",
+               "idn2_to_ascii_8z", "strtok", "strerror", "rand", "srand", "setlocale", "getenv", "setenv", "unsetenv", "putenv", "clearenv", "abort", "__assert_fail", "atexit", "on_exit",
                "pthread_mutex_lock", "pthread_mutex_trylock", "pthread_mutex_unlock", "pthread_mutex_init", "pthread_mutex_destroy",
                "pthread_rwlock_rdlock", "pthread_rwlock_wrlock", "pthread_rwlock_unlock", "pthread_once", "sched_yield"]
 
@@ -292,6 +311,7 @@ def build_sched(variant="", defs=(), backend="idn2"):
     objs = compile_lib(d, backend, tsan, list(defs))
     ext = undefined_externals(objs)
     rename_writable_sections(objs)
+    rename_init_fini(objs)
     sim = os.path.join(VERIF, "sim")
     inc = ["-I" + os.path.join(REPO, "include"), "-I" + REPO] + BACKEND_DEFS[backend] + list(defs)
     plain = ["-O1", "-g", "-gdwarf-4", "-fno-omit-frame-pointer", "-fPIC"]
